@@ -232,6 +232,23 @@ def check_message(sh, fams, D, name, fam, h, exp_inner, dec, sender, ids):
             sh.violation(f"C04:roundtrip:{name}", f"{name} does not decode to the fields it was built from", dict(w, decoded={k: v for k, v in vars(rx).items() if not k.startswith("_on")}))
         else:
             sh.count("roundtrips_ok")
+        # the whole receive path of the blocking engine: the framed datagram handed to a real
+        # GeckoUdpSocket's dispatcher (no thread), unwrapped by its packet handler and dispatched
+        # again to the verb's handler registered on the same socket
+        if not isinstance(dec, tuple) and not cls.__name__.startswith("GeckoAsync"):
+            try:
+                eng = D.GeckoUdpSocket()
+                eng.add_receive_handler(D.GeckoPacketProtocolHandler(socket=eng))
+                ex = new_handler(cls)
+                eng.add_receive_handler(ex)
+                eng.dispatch_recevied_data(wire, (sender[0], sender[1]))
+                oke = bool(dec(ex))
+            except Exception as e:
+                sh.violation(f"C04:decode-raise:{name}", f"decoding {name} through the engine's dispatcher raised {e!r}", dict(w, exc=describe_exc(e)))
+                oke = True
+            sh.count("engine_path_decodes")
+            if not oke:
+                sh.violation(f"C04:roundtrip-engine:{name}", f"{name} received through a real GeckoUdpSocket dispatcher (frame unwrapped and re-dispatched) does not decode to the fields it was built from", dict(w, decoded={k: v for k, v in vars(ex).items() if not k.startswith("_on")}))
         # long-lived instance, as the peer's standing handlers and the threaded client's
         # request handlers are: decode a whole sequence of messages on ONE object
         if name in LONG_LIVED and not isinstance(dec, tuple):
